@@ -1,5 +1,10 @@
 //! C05 / C06 / C07: repetition rules and the summary queries.
 //!
+//! History lengths: the engine only asks whether a probe hash occurs at least TWICE, so a history
+//! of two arbitrary entries already reaches every behaviour (a longer history acts like the
+//! two-entry one formed by two of its matching entries, or by non-matching ones). The heavy
+//! relational harnesses use 2 entries, the cheap exact ones (can_pass, the 4th-step predicate) 6.
+//!
 //! Layers (DESIGN §5 C05):
 //!  * `c05_can_pass`      - real `can_pass`, symbolic hashes and history: exact characterisation.
 //!  * `c05_passing_like`  - the private predicate behind the 4th-step filter (hook H2), all boards:
@@ -64,6 +69,41 @@ fn digest(b: &model::Board) -> u64 {
         ^ b.t[3].rotate_left(29)
         ^ b.t[4].rotate_left(37)
         ^ b.t[5].rotate_left(43)
+}
+
+/// Native replay of a counterexample found under the abstract `move_piece` (§3.6): the solver chose
+/// the turn-initial hash and the history entries relative to the ABSTRACT values
+/// `X_same ^ digest(board)` / `X_other ^ digest(board)`. The same equality pattern is
+/// re-created with the REAL hashes of the same boards, so that the real predicate sees the
+/// situation the solver described.
+#[cfg(not(kani))]
+fn concretize(s: &Scn, actions: &[Action]) -> Scn {
+    let xs = s.prev[2].p1;
+    let xo = s.prev[2].t[0];
+    let gs0 = build_state(s);
+    let z = hooks::state_hash(&gs0);
+    let mut map: Vec<(u64, u64)> = Vec::new();
+    for a in actions {
+        if let Action::Move(_, _) = a {
+            // the board the engine itself would hash (bit shifts + trap removal), via the public API
+            let mut probe = *s;
+            probe.step = 0;
+            probe.pending = Pending::None;
+            let g = build_state(&probe);
+            let nb = board_of(g.take_action(a).piece_board());
+            let pb = piece_board_of(&nb);
+            let dig = digest(&nb);
+            map.push((xs ^ dig, z.move_piece(&gs0, pb.piece_board(), 0, s.gold).board_state_hash()));
+            map.push((xo ^ dig, z.move_piece(&gs0, pb.piece_board(), 0, !s.gold).board_state_hash()));
+        }
+    }
+    let tr = |v: u64| map.iter().find(|(k, _)| *k == v).map(|(_, r)| *r).unwrap_or(v);
+    let mut r = *s;
+    r.initial = tr(s.initial);
+    for k in 0..HIST_MAX {
+        r.hist[k] = tr(s.hist[k]);
+    }
+    r
 }
 
 /// (hash of the result as a start of turn with the same side, with the other side)
@@ -140,8 +180,10 @@ pub fn c05_passing_like<const KIND: u8>(inp: &Inp) -> Verdict {
     let xo = s.prev[2].t[0];
     let nb = after_board_words(&s.board, s.a_sq, t);
     arm_abstract(xs, xo, Some(&nb));
-    let gs = build_state(&s);
     let a = action_of(s.a_sq, s.a_dir);
+    #[cfg(not(kani))]
+    let s = concretize(&s, &[a]);
+    let gs = build_state(&s);
     let got = hooks::is_passing_like_action(&gs, &a);
     let (h_same, h_other) = start_hashes(&s, &gs, &nb, xs, xo);
     let want = h_same == s.initial || count_hist(&s, h_other) >= 2;
@@ -152,7 +194,7 @@ pub fn c05_passing_like<const KIND: u8>(inp: &Inp) -> Verdict {
     assert!(!hooks::is_passing_like_action(&gs, &Action::Pass), "C06: the step predicate flags a pass");
     vcover!(h_same == s.initial, "C05 witness: 4th step restores the turn's starting position");
     vcover!(h_same != s.initial && want, "C05 witness: 4th step would create a third occurrence");
-    vcover!(!want && s.hist_len >= 3, "C05 witness: 4th step allowed");
+    vcover!(!want && s.hist_len >= 2, "C05 witness: 4th step allowed");
     std::mem::forget(gs);
     Verdict::Held
 }
@@ -168,11 +210,13 @@ fn sym_action(inp: &Inp, k: usize) -> Action {
 
 /// `remove_passing_like_actions` on an arbitrary list of two actions (steps or pass).
 pub fn c06_remove<const STEP: usize, const KIND: u8>(inp: &Inp) -> Verdict {
-    let s = decode(inp, STEP, KIND, HIST_MAX);
+    let s = decode(inp, STEP, KIND, 2);
     vassume!(inv_rules(&s));
     arm_abstract(s.prev[2].p1, s.prev[2].t[0], None);
-    let gs = build_state(&s);
     let a = [sym_action(inp, 0), sym_action(inp, 1)];
+    #[cfg(not(kani))]
+    let s = concretize(&s, &a);
+    let gs = build_state(&s);
     let active = STEP == 3 && !s.trapped;
     let keep = [
         !(active && hooks::is_passing_like_action(&gs, &a[0])),
@@ -204,12 +248,14 @@ pub fn c06_remove<const STEP: usize, const KIND: u8>(inp: &Inp) -> Verdict {
 }
 
 pub fn c07_has_non_passing<const STEP: usize, const KIND: u8>(inp: &Inp) -> Verdict {
-    let s = decode(inp, STEP, KIND, HIST_MAX);
+    let s = decode(inp, STEP, KIND, 2);
     vassume!(inv_rules(&s));
     arm_abstract(s.prev[2].p1, s.prev[2].t[0], None);
-    let gs = build_state(&s);
     let len = (inp[142] % 3) as usize;
     let a = [sym_action(inp, 0), sym_action(inp, 1)];
+    #[cfg(not(kani))]
+    let s = concretize(&s, &a);
+    let gs = build_state(&s);
     // the engine only ever passes step lists
     vassume!(ent(&a[0]).0 == 0 && ent(&a[1]).0 == 0);
     let mut some_ok = false;
@@ -289,10 +335,13 @@ fn summaries<const PART: u8>(s: &Scn, gs: &GameState, max: usize) -> (bool, bool
 
 /// All boards, lowest-bit projection (exact for emptiness): steps 0-2, and step 3 after a capture.
 pub fn c07_summary<const STEP: usize, const KIND: u8, const PART: u8>(inp: &Inp) -> Verdict {
-    let s = decode(inp, STEP, KIND, HIST_MAX);
+    let s = decode(inp, STEP, KIND, 2);
     vassume!(inv_rules(&s));
+    // CONCRETE flag (not an assumption on a symbolic one): the engine then never enters the
+    // hash-dependent 4th-step filter, which these projected runs cannot evaluate
+    let mut s = s;
     if STEP == 3 {
-        vassume!(s.trapped);
+        s.trapped = true;
     }
     let gs = build_state(&s);
     #[cfg(kani)]
@@ -308,7 +357,7 @@ pub fn c07_summary<const STEP: usize, const KIND: u8, const PART: u8>(inp: &Inp)
 
 /// Whole functions, un-projected, boards with <= KP pieces, real tables, symbolic history.
 pub fn c07_small<const STEP: usize, const KIND: u8, const KP: u32, const PART: u8>(inp: &Inp) -> Verdict {
-    let s = decode(inp, STEP, KIND, 4);
+    let s = decode(inp, STEP, KIND, 2);
     vassume!(inv_rules(&s));
     vassume!(s.board.all().count_ones() <= KP);
     // the list relations do not depend on the table contents: run with the indicator table
@@ -328,7 +377,7 @@ pub fn c07_small<const STEP: usize, const KIND: u8, const KP: u32, const PART: u
 /// C06 list relation on the whole functions (small boards): `valid_actions()` is
 /// `valid_actions_no_rep()` minus exactly the withheld turn-ending entries, same order.
 pub fn c06_whole<const STEP: usize, const KIND: u8, const KP: u32>(inp: &Inp) -> Verdict {
-    let s = decode(inp, STEP, KIND, 4);
+    let s = decode(inp, STEP, KIND, 2);
     vassume!(inv_rules(&s));
     vassume!(s.board.all().count_ones() <= KP);
     // the list relation does not depend on the table contents: run with the indicator table
